@@ -163,10 +163,11 @@ import json as _json  # noqa: E402
 from elementpath.xpath_tokens import XPathMap as _XMap, XPathArray as _XArr  # noqa: E402
 JSON_TEXTS = ('1e20', '1e-10', '100', '1200', '0.5', '-2.50', '{"a":null}', '[null]', '{"a":[]}', '{"a":{}}', '[[]]', '"x"', 'true', 'null',
               '[1,{"b":[null,false]}]', '{"a":[],"b":{"c":[],"d":[[]]}}', '[12345678901234567890]', '{"k":1e5,"l":[1.5e-7]}',
-              '{"a\\"b":1}', '{"a<b":"c&d"}', '"it\'s \\"q\\""', '{"":[""]}')
+              '{"a\\"b":1}', '{"a<b":"c&d"}', '"it\'s \\"q\\""', '{"":[""]}',
+              '"a\\\\qb"', '{"k\\\\q":[null,true,{"a\\nb":"x\\\\y"}]}', '"\\\\u00"', '"\\\\"')
 P31B = P31.__class__(base_uri='http://example.com/base/')
-TB_ = {False: parse_all({'x2j': 'xml-to-json(json-to-xml($t))', 'pj': 'parse-json($t)', 'ser': 'serialize(parse-json($t), map{"method": "json"})'}),
-       True: parse_all({'x2j': 'xml-to-json(json-to-xml($t))', 'pj': 'parse-json($t)', 'ser': 'serialize(parse-json($t), map{"method": "json"})'}, parser=P31B)}
+TB_ = {False: parse_all({'x2j_esc': 'xml-to-json(json-to-xml($t, map{"escape": true()}))', 'x2j': 'xml-to-json(json-to-xml($t))', 'pj': 'parse-json($t)', 'ser': 'serialize(parse-json($t), map{"method": "json"})'}),
+       True: parse_all({'x2j_esc': 'xml-to-json(json-to-xml($t, map{"escape": true()}))', 'x2j': 'xml-to-json(json-to-xml($t))', 'pj': 'parse-json($t)', 'ser': 'serialize(parse-json($t), map{"method": "json"})'}, parser=P31B)}
 
 
 def _py(v):
@@ -196,22 +197,23 @@ def _norm(j):
     return j
 
 
-@ob(budget=200, bound='JSON text from a table of 22 (exponent numbers, nulls, empty arrays/objects as members, nested shapes; index chosen by the '
+@ob(budget=200, bound='JSON text from a table of 26 (exponent numbers, nulls, empty arrays/objects as members, nested shapes; index chosen by the '
                       'solver) x parser with / without a static base URI: xml-to-json(json-to-xml(t)), parse-json(t) and '
                       'serialize(parse-json(t), json) all denote the value an independent JSON parser reads from t',
     funcs=['elementpath/xpath31/_xpath31_functions.py:evaluate__xml_to_json', 'elementpath/xpath31/_xpath31_functions.py:evaluate__json_to_xml',
            'elementpath/xpath31/_xpath31_functions.py:evaluate__parse_json', 'elementpath/serialization.py:serialize_to_json'])
 def json_texts_roundtrip(ti: int, base: bool) -> bool:
     """
-    pre: 0 <= ti <= 21
+    pre: 0 <= ti <= 25
     post: _
     """
-    t = JSON_TEXTS[[k for k in range(22) if k == ti][0]]
+    t = JSON_TEXTS[[k for k in range(26) if k == ti][0]]
     toks = TB_[True if base else False]
     want = _norm(_json.loads(t))
-    back = ev(toks['x2j'], t=t)
-    if len(back) != 1 or _norm(_json.loads(back[0])) != want:
-        return False
+    for key in ('x2j', 'x2j_esc'):
+        back = ev(toks[key], t=t)
+        if len(back) != 1 or _norm(_json.loads(back[0])) != want:
+            return False
     if _norm(_py(ev(toks['pj'], t=t))) != want:
         return False
     ser = ev(toks['ser'], t=t)
